@@ -29,6 +29,8 @@ struct VDisk : public DiskInterface {
   std::string actor = "ninja";    // who performs the current mutations
   // fault injection (ninja-side calls only)
   std::set<std::string> stat_err, mkdir_fail, write_fail;
+  std::set<std::string> stat_err_late;   // Stat fails only once a command of this invocation wrote the path
+  std::set<std::string> written_by_cmd;
   mutable int stat_calls = 0;
 
   static std::string Dir(const std::string& p) {
@@ -55,6 +57,7 @@ struct VDisk : public DiskInterface {
     if (!DirExists(Dir(path)) || dirs.count(path)) return false;
     VFile& f = files[path];
     f.content = content; f.mtime = ++clock;
+    if (actor.compare(0, 4, "cmd:") == 0) written_by_cmd.insert(path);
     Ev("W", path, f.mtime, &content);
     return true;
   }
@@ -79,7 +82,7 @@ struct VDisk : public DiskInterface {
   // --- DiskInterface (called by ninja)
   TimeStamp Stat(const std::string& path, std::string* err) const override {
     ++stat_calls;
-    if (stat_err.count(path)) { if (err) *err = "stat(" + path + "): injected I/O error"; return -1; }
+    if (stat_err.count(path) || (stat_err_late.count(path) && written_by_cmd.count(path))) { if (err) *err = "stat(" + path + "): injected I/O error"; return -1; }
     auto i = files.find(path);
     if (i != files.end()) return i->second.mtime;
     auto d = dirs.find(path);
